@@ -153,6 +153,19 @@ def own_names(func):
     return _OWN_NAMES[id(func)][1]
 
 
+_HAS_NESTED = {}
+
+
+def _defines_closures(func):
+    got = _HAS_NESTED.get(id(func))
+    if got is None:
+        body = getattr(func, "body", None)
+        stmts = body if isinstance(body, list) else ([body] if body is not None else [])
+        found = any(isinstance(n, FUNC_TYPES + (ast.Lambda,)) for s_ in stmts for n in ast.walk(s_))
+        got = _HAS_NESTED[id(func)] = (func, found)
+    return got[1]
+
+
 def lexical_parent(func):
     """The function (or lambda) whose body defines ``func``, or None for methods / module-level functions."""
     n = getattr(func, "_parent", None)
@@ -1357,7 +1370,15 @@ class Interp:
         # function, the locals of its lexically enclosing frames (which it may also rebind or mutate);
         # the other callers' frame locals pass through unchanged.  Summaries keyed by
         # (function, globals, arguments) close recursion.
-        shared = tuple(e.prefix for e in fr.enclosing)
+        shared = {e.prefix for e in fr.enclosing}
+        # frames further up that define nested functions stay visible too: a closure handed down as an argument
+        # (or stored and called back) may be invoked from here and must find its free variables
+        c_ = caller
+        while c_ is not None:
+            if _defines_closures(c_.func):
+                shared.add(c_.prefix)
+            c_ = c_.caller
+        shared = tuple(sorted(shared))
         caller_locals = frozenset((k, v) for k, v in st.items if _is_local(k) and not (shared and k.startswith(shared)))
         entry = State(frozenset((k, v) for k, v in st.items if not _is_local(k) or (shared and k.startswith(shared))), st.log)
         key = (id(func), entry, tuple(sorted((k, repr(v)) for k, v in argvals.items())))
